@@ -169,6 +169,28 @@ def canon(obs):
             o["gss_est"])
 
 
+def challenge_user(obs):
+    """user name the application was given when it last issued a keyboard-interactive challenge"""
+    for ob in reversed(obs):
+        for c in reversed(ob["cb"]):
+            if c[0] == "auth_interactive":
+                return c[1] if c[2] == R.Q else None
+    return None
+
+
+# two-users configuration: paramiko keeps no record of an outstanding challenge (an INFO_RESPONSE is passed to
+# the application whenever it arrives), but the ORACLE depends on it - whom did the application challenge?  That
+# piece of the application's view of the history is therefore part of the state key there, so that "bob after
+# alice was challenged" is not merged with "bob".
+def canon_two_users(obs):
+    k = canon(obs)
+    return k if k == ("dead",) else k + (challenge_user(obs),)
+
+
+def canon_for(cfg):
+    return canon_two_users if cfg == "two-users" else canon
+
+
 def sub_events(ev):
     ev = R.tup(ev)
     return list(ev[1]) if ev[0] == "burst" else [ev]
@@ -194,11 +216,7 @@ def approved_user(subs, approving, obs):
     for c in approving:
         if c[1] is not None:
             return c[1]
-    for ob in reversed(obs):
-        for c in reversed(ob["cb"]):
-            if c[0] == "auth_interactive":
-                return c[1]
-    return None
+    return challenge_user(obs)
 
 
 def judge_factory(cfg):
@@ -353,7 +371,7 @@ def main(tier):
          "event mode: the server reacts completely to one packet (or one pipelined burst) before the next"])
     summary = {}
     for cfg in ("shipped", "gss-bound", "gss-off", "no-service-request", "two-users"):
-        out, acc = A.pbfs(make_run(cfg), make_enabled(tier, cfg), canon, judge_factory(cfg),
+        out, acc = A.pbfs(make_run(cfg), make_enabled(tier, cfg), canon_for(cfg), judge_factory(cfg),
                           depth_for(tier, cfg))
         ck.merge(acc)
         ck.acc.states += out.states
@@ -363,7 +381,8 @@ def main(tier):
                         "depth_reached": out.max_depth, "states": out.states,
                         "transitions": out.transitions, "frontier_left_at_bound": out.frontier_left,
                         "closed": out.frontier_left == 0, "levels": out.levels}
-        if out.frontier_left and tier == "thorough" and cfg != "no-service-request":
+        # (no-service-request and two-users are depth-bounded by design, the bound is stated in META)
+        if out.frontier_left and tier == "thorough" and cfg not in ("no-service-request", "two-users"):
             ck.cap_hit("%s: depth bound %d reached with %d unexpanded states"
                        % (cfg, depth_for(tier, cfg), out.frontier_left))
     ck.extra["bound"] = summary
